@@ -42,7 +42,7 @@ CHECKS = {
         "technique": "Lean 4 proof (loop anatomy by case analysis; Mathlib linear algebra for the step; induction for the contraction bound) + kernel/trace correspondence with step certificate + planted-solution oracle on the real code",
     },
     "C04": {
-        "text": "Machine-checked proof (Lean 4): for every scalar type, a variable whose step component is a neutral element keeps its guess through every round, level and in the returned values, and an empty request list returns the guesses; over the reals (Mathlib), the exact step has a zero component for every variable whose Jacobian column is zero, the linear kinds are affine with constant Jacobian rows (all aliasings), one damped step is the minimiser of |Ax-b|^2 + lambda|x-x0|^2, the total displacement stays orthogonal to the kernel of A, the gradient after a step is exactly -lambda*d, a stationary point is a global least-squares minimiser, and a stationary point whose displacement lies in range(A^T) is the unique least-squares point nearest the guess.",
+        "text": "Machine-checked proof (Lean 4): for every scalar type, a variable whose step component is a neutral element keeps its guess through every round, level and in the returned values, and an empty request list returns the guesses; over the reals (Mathlib), the exact step has a zero component for every variable whose Jacobian column is zero, the linear kinds are affine with constant Jacobian rows (all aliasings), one damped step is the minimiser of |Ax-b|^2 + lambda|x-x0|^2, the total displacement stays orthogonal to the kernel of A, the gradient after a step is exactly -lambda*d, a stationary point is a global least-squares minimiser, a stationary point whose displacement lies in range(A^T) is the unique least-squares point nearest the guess, and on a consistent system the exact iteration converges geometrically (factor lambda/(c+lambda) per round) to the solution nearest the guess.",
         "design_ref": "DESIGN.md §6 C04",
         "note": "The 1e-4*scale closeness of the f64 result is compared with an exact rational minimum-norm least-squares oracle (sympy) on the real code; trace replay checks d_j == 0 for unmentioned variables on every recorded iteration.",
         "technique": "Lean 4 proof (loop invariant for untouched variables; Mathlib matrix algebra for Tikhonov / nearest least squares) + kernel/trace correspondence + exact rational least-squares oracle",
